@@ -71,9 +71,11 @@ theorem header_offsets :
     Whv.Gen.C04.ralSigStart = 6 ∧ Whv.Gen.C04.ralSigStride = 66 ∧ Whv.Gen.C04.ralBodyStart = (6, 66) ∧
     Whv.Gen.C04.ralBodyStartCount = "signatureSize" := by decide
 
-/-- All three implementations hash the body twice (and Solidity checks the version byte). -/
+/-- Both contracts hash the body twice (and Solidity checks the version byte). The Go side is not a textual fact: `SigningMsg`
+is compared with Keccak(Keccak(`SerializeBody`)) recomputed by the harness on every `body` line (clause
+`digest-not-double-keccak`). -/
 theorem double_hash_everywhere :
-    Whv.Gen.C04.goDoubleHash = true ∧ Whv.Gen.C04.solDoubleHash = true ∧ Whv.Gen.C04.ralDoubleHash = true ∧
+    Whv.Gen.C04.solDoubleHash = true ∧ Whv.Gen.C04.ralDoubleHash = true ∧
     Whv.Gen.C04.solVersionCheck = true := by decide
 
 /-- The bytes the contracts hash — everything after the `6 + 66·k`-byte header of the wire form — are exactly the
